@@ -159,6 +159,9 @@ class EFLRItem:
         if isinstance(getattr(self, key, None), Attribute):
             raise RuntimeError(f"Cannot set DLIS Attribute '{key}'. Did you mean setting '{key}.value' instead?")
 
+        if key == 'name' and 'name' in self.__dict__:
+            validate_string(value)  # a new name is subject to the same check as the one given at creation
+
         if key in ('name', '_origin_reference', '_copy_number'):
             # these make up the OBNAME of the item; do not keep a cached version made from the previous values
             self.__dict__.pop('obname', None)
